@@ -189,6 +189,8 @@ def run_seed(prop, seed, tier, want_trace=False):
     trace = prop.generate(rng, tier)
     trace["property"] = prop.ID
     trace["seed"] = seed
+    # what is executed is exactly what a replay file can hold
+    trace = json.loads(json.dumps(trace, default=_json_default))
     res = prop.execute(trace, rng)
     if res.get("status") != OK or want_trace:
         if "schedule" in res:
